@@ -18,8 +18,9 @@ from lib import gz, gtext, glist, gbool, gopt, gpair
 THEOREMS = ['C15_invariants_hold', 'C15_invariants_decidable', 'C15_derivation_returns_new_class',
             'C15_frame_derivation', 'C15_frame_step', 'C15_frame_history', 'C15_frame_derivations',
             'C15_evolution_records', 'C15_propagates', 'C15_fresh_simple', 'C15_fresh_complex',
-            'C15_customize_keeps_fields', 'C15_order_declared', 'C15_order_flat', 'C15_order_parents_first',
-            'C15_order_flat_distinct', 'C15_odict_keys']
+            'C15_customize_keeps_fields', 'C15_customize_keeps_order', 'C15_fresh_decimal_keywords',
+            'C15_order_append', 'C15_order_insert', 'C15_order_declared', 'C15_order_flat',
+            'C15_order_parents_first', 'C15_order_flat_distinct', 'C15_odict_keys']
 
 D_INF = decimal.Decimal('inf')
 
